@@ -447,3 +447,16 @@ package pilosa
 //@   loop 1 invariant forall k :: 0 <= k && k < len(other) ==> (exists i :: 0 <= i && i <= $i && a[i] == other[k] && a[i].ID != id)
 //@   loop 1 invariant forall i :: 0 <= i && i <= $i && a[i].ID != id ==> (exists k :: 0 <= k && k < len(other) && other[k] == a[i])
 //@   loop 1 decreases len(a) - $i
+
+// ---- C21: which node a resize source names -----------------------------------------
+
+// unprotectedNodeByID: the first node of the cluster with that ID, nil exactly when no
+// node has it.  fragSources turns a source node ID into the Node a fragment is fetched
+// from with it, and cluster.diff finds the added / removed node with it.
+//@ contract (*cluster).unprotectedNodeByID props C21
+//@   requires c != nil && (forall i :: 0 <= i && i < len(c.nodes) ==> c.nodes[i] != nil)
+//@   ensures result != nil ==> result.ID == id && (exists i :: 0 <= i && i < len(c.nodes) && c.nodes[i] == result && (forall k :: 0 <= k && k < i ==> c.nodes[k].ID != id))
+//@   ensures result == nil <==> (forall i :: 0 <= i && i < len(c.nodes) ==> c.nodes[i].ID != id)
+//@   modifies nothing
+//@   loop 1 invariant 0 <= $i + 1 && $i + 1 <= len(c.nodes) && (forall k :: 0 <= k && k <= $i ==> c.nodes[k].ID != id)
+//@   loop 1 decreases len(c.nodes) - $i
